@@ -64,14 +64,26 @@ class JsonSchemaGenerator:
             enum_type = None
             enum_values = []
             enum_map = {}
+            enum_types = []
             for key, val in t.__members__.items():
                 enum_values.append(val.value)
                 enum_map[key] = val.value
                 enum_type = type(val.value)
+                if enum_type not in enum_types:
+                    enum_types.append(enum_type)
             if not isinstance(base, EnumMeta):
                 enum_type = base
+                enum_types = [base]
             prim = self._get_primitive(enum_type)
             fmt = self._get_format(enum_type)
+            if len(enum_types) > 1:
+                # members of different types: every member's primitive is allowed, no common format
+                prims = []
+                for et in enum_types:
+                    if self._get_primitive(et) not in prims:
+                        prims.append(self._get_primitive(et))
+                prim = prims if len(prims) > 1 else prims[0]
+                fmt = None
             data = {
                 "type": prim,
                 "enum": enum_values,
